@@ -1,7 +1,7 @@
 (* C17 - Packages cannot observe or mutate each other's values.
    This file holds only the statement, the property theorems and their non-vacuity examples. *)
 From PlzV Require Import Base.Harness Model.C16_Syntax Model.C16_Ops Model.C16_Prim Model.C16_Eval Model.C16.
-From PlzV Require Import Proof.C16 Proof.C17.
+From PlzV Require Import Proof.C17 Proof.C17_Inv Proof.C17_Main Proof.C17_NoConst Proof.C17_Examples.
 
 (* For every subincluded file and every two packages interpreted on one interpreter (so that they share the
    cached, frozen globals of the subinclude): what the second package computes is what it computes when it is
@@ -16,41 +16,117 @@ Proof.
 Qed.
 Print Assumptions C17_refuted.
 
-(* What Freeze does guarantee, for all heaps and values:
-   - index assignment through a frozen list or dict always fails;
-   - a frozen list WITHOUT spare capacity is read-only for everything a package can apply to it (index assignment
-     fails, + writes no existing array);
-   - heap writes to different arrays do not affect each other and commute (so the steps of two packages that
-     write only arrays of their own can be interleaved in any order);
-   but pyList.Freeze is shallow (freeze_list_shallow): the elements of an exported list are not frozen. *)
+(* What IS proved, for the modelled evaluator (Model/C16_Eval.v, asp dialect, every statement, expression, function
+   call, builtin and method of the model; the invariant includes that every subincludable file is already in the
+   interpreter's cache, so the packages subinclude only loaded files), by induction on the fuel:
+
+   (1) THE FRAME THEOREM, general form.  Classify the arrays and dicts of the heap as Free / Prot(ected) / Dead, the
+       functions and file scopes as live / dead.  If the state satisfies the invariant `Inv` (every value the running
+       code can reach is `vok`: no mutable reference to a protected object, no reference to a dead one), then after
+       ANY sequence of package programs the invariant still holds and NO protected or dead array / dict has changed,
+       no dead file scope has changed, the function table has only grown and the subinclude cache is the same.
+   (2) Frozen states.  When everything that exists when the packages start is protected (except listed garbage, which
+       is dead) - `frozen_state` - no sequence of packages changes ANY array or dict that existed before, and
+   (3) every value that is closed in that state (everything a subinclude exported) RENDERS THE SAME after any packages
+       were interpreted as before: what a package sees of an import does not depend on which packages were parsed
+       before it.
+   (4) `deep_frozen` (every list / dict reachable from the value is a frozen wrapper) implies the local condition of
+       the invariant; the model's Freeze of a list of scalars IS deep-frozen; Freeze of a list with a nested list is
+       NOT (it is shallow) - the refuting class.  `frozen_stateb` is an executable, sound test of (2)'s hypothesis.
+   (5) The primitive facts: index assignment through a frozen list / dict always fails; a frozen list is read-only for
+       every operation (+ allocates); writes to different arrays commute.
+
+   NOT proved: that a package's OWN results do not depend on the objects an earlier package allocated (the evaluator
+   is parametric in fresh array / dict / function ids) - the harness compares `b alone` with `b after a` instead. *)
 Definition C17_partial_statement : Prop :=
-  (forall st idx v,
-     (forall sl, vindex_assign Asp st (VFrozenList sl) idx v = Err EType)
-     /\ (forall i, vindex_assign Asp st (VFrozenDict i) idx v = Err EType))
+  (* (1) *)
+  (forall (ca cd : nat -> mode) (pf ls : nat -> bool) (cs : list value) (defs : list (str * prog)) fuel builds st outs st',
+     Inv ca cd pf ls cs defs st ->
+     (forall j, length (fscopes st) <= j -> ls j = true) ->
+     Forall (fun p => sok_p ca cd pf cs p = true) builds ->
+     run_builds Asp defs fuel builds st = (outs, st') ->
+     Inv ca cd pf ls cs defs st' /\ frame ca cd ls st st')
+  (* (2) *)
+  /\ (forall defs dead_a dead_d st0 fuel builds outs st',
+        frozen_state defs dead_a dead_d st0 ->
+        Forall (pkg_ok dead_a dead_d st0) builds ->
+        run_builds Asp defs fuel builds st0 = (outs, st') ->
+        (forall a, a < length (arrays st0) -> arr_of st' a = arr_of st0 a)
+        /\ (forall i, i < length (dicts st0) -> dict_of st' i = dict_of st0 i)
+        /\ (exists X, funcs st' = funcs st0 ++ X)
+        /\ subcache st' = subcache st0
+        /\ frozen_inv_after defs dead_a dead_d st0 st')
+  (* (2') the same for BUILD files: the only condition on the programs is that they contain no optimised.Constant *)
+  /\ (forall defs dead_a dead_d st0 fuel builds outs st',
+        frozen_state defs dead_a dead_d st0 ->
+        Forall (fun p => no_const p = true) builds ->
+        run_builds Asp defs fuel builds st0 = (outs, st') ->
+        (forall a, a < length (arrays st0) -> arr_of st' a = arr_of st0 a)
+        /\ (forall i, i < length (dicts st0) -> dict_of st' i = dict_of st0 i)
+        /\ (exists X, funcs st' = funcs st0 ++ X)
+        /\ subcache st' = subcache st0
+        /\ frozen_inv_after defs dead_a dead_d st0 st')
+  (* (3) *)
+  /\ (forall defs dead_a dead_d st0 fuel builds outs st' rfuel v,
+        frozen_state defs dead_a dead_d st0 ->
+        Forall (pkg_ok dead_a dead_d st0) builds ->
+        run_builds Asp defs fuel builds st0 = (outs, st') ->
+        closedb rfuel st0 (length (arrays st0)) (length (dicts st0)) (length (funcs st0)) v = true ->
+        render Asp rfuel st' v = render Asp rfuel st0 v)
+  (* (4) *)
+  /\ (forall st na nd v, deep_frozen st v -> vok (cls_prefix na []) (cls_prefix nd []) (fun _ => false) v)
+  /\ (forall fuel sl st, Forall scalar (list_items Asp st sl) ->
+        freeze (S fuel) (VList sl) st = Ok (VFrozenList sl, st) /\ deep_frozen st (VFrozenList sl))
+  /\ (forall fuel sl st inner, List.In (VList inner) (list_items Asp st sl) ->
+        freeze (S fuel) (VList sl) st = Ok (VFrozenList sl, st) /\ ~ deep_frozen st (VFrozenList sl))
+  /\ (forall defs dead_a dead_d st, frozen_stateb defs dead_a dead_d st = true -> frozen_state defs dead_a dead_d st)
+  (* (5) *)
+  /\ (forall st idx v,
+        (forall sl, vindex_assign Asp st (VFrozenList sl) idx v = Err EType)
+        /\ (forall i, vindex_assign Asp st (VFrozenDict i) idx v = Err EType))
   /\ (forall st sl,
-        s_cap sl = s_len sl -> (s_off sl + s_len sl <= length (arr_of st (s_arr sl)))%nat ->
         (forall idx v, vindex_assign Asp st (VFrozenList sl) idx v = Err EType)
         /\ (forall items2, let '(r, st') := list_add Asp sl items2 st in
-              forall a, (a < length (arrays st))%nat -> arr_of st' a = arr_of st a))
+              s_arr r = length (arrays st) /\ forall a, a < length (arrays st) -> arr_of st' a = arr_of st a))
   /\ (forall a off xs st b, a <> b -> arr_of (arr_write a off xs st) b = arr_of st b)
   /\ (forall a1 o1 xs1 a2 o2 xs2 st, a1 <> a2 ->
-        arrays (arr_write a1 o1 xs1 (arr_write a2 o2 xs2 st)) = arrays (arr_write a2 o2 xs2 (arr_write a1 o1 xs1 st)))
-  /\ (forall fuel sl st, freeze (S fuel) (VList sl) st = Ok (VFrozenList sl, st)).
+        arrays (arr_write a1 o1 xs1 (arr_write a2 o2 xs2 st)) = arrays (arr_write a2 o2 xs2 (arr_write a1 o1 xs1 st))).
 
 Theorem C17_partial : C17_partial_statement.
 Proof.
-  exact (conj frozen_index_assign_fails (conj frozen_full_list_is_readonly (conj arr_write_other
-        (conj arr_write_commute freeze_list_shallow)))).
+  exact (conj frame_builds (conj packages_write_nothing_imported (conj build_files_write_nothing_imported (conj imported_values_unchanged
+        (conj deep_frozen_vok (conj freeze_flat_list_deep_frozen (conj freeze_nested_not_deep_frozen
+        (conj frozen_stateb_sound (conj frozen_index_assign_fails (conj frozen_list_is_readonly
+        (conj arr_write_other arr_write_commute))))))))))).
 Qed.
 Print Assumptions C17_partial.
 
-(* Non-vacuity: the three refuting shapes compute, and a flat exported list attacked directly, by alias, through
-   + and += and through a frozen dict member is NOT interfered with. *)
+(* Non-vacuity.  The refuting shapes compute; the two shapes repaired in /repo 7aeabfa no longer interfere. *)
 Example C17_refuted_witnesses :
   no_interference FUEL [(lbl, d_nested)] u1 u2 = false
-  /\ no_interference FUEL [(lbl, d_filt)] v1 v2 = false
-  /\ no_interference FUEL [(lbl, d_mk)] w1 w2 = false.
-Proof. exact (conj nested_interferes (conj spare_capacity_interferes constant_interferes)). Qed.
+  /\ no_interference FUEL [(lbl, d_mk)] w1 w2 = false
+  /\ no_interference FUEL [(lbl, d_dflt)] z1 z2 = false.
+Proof. exact (conj nested_interferes (conj constant_interferes default_interferes)). Qed.
 
-Example C17_partial_nonvacuous : no_interference FUEL [(lbl, d_flat)] x1 x2 = true.
-Proof. exact flat_does_not_interfere. Qed.
+Example C17_fixed_classes :
+  no_interference FUEL [(lbl, d_filt)] v1 v2 = true /\ no_interference FUEL [(lbl, d_plain)] y1 y2 = true.
+Proof. exact (conj spare_capacity_fixed plus_empty_fixed). Qed.
+
+(* The hypotheses of (2)/(3) are satisfied by the state the model's Subinclude leaves for a build_defs file with a
+   flat list, a dict with a list member and a function (d_lib) (the unfrozen original of the dict is the one dead object);
+   the attacking package xa (alias, +, +=, + [], dict member, index assignment, map, sorted) and the observer xb are covered programs;
+   the exported values are closed; and the run of both packages does not interfere.  The hypothesis FAILS for the
+   states of the refuting classes (nested list; function returning a constant list; list default argument). *)
+Example C17_partial_nonvacuous :
+  frozen_stateb [(lbl, d_lib)] [] [0] (state_after d_lib) = true
+  /\ forallb (fun p => sok_p (cls_prefix (length (arrays (state_after d_lib))) []) (cls_prefix (length (dicts (state_after d_lib))) [0])
+                         (fun _ => false) (consts (state_after d_lib)) p) [xa; xb] = true
+  /\ forallb (fun kv => closedb 64 (state_after d_lib) (length (arrays (state_after d_lib))) (length (dicts (state_after d_lib)))
+                          (length (funcs (state_after d_lib))) (snd kv)) (exports_of (state_after d_lib)) = true
+  /\ forallb no_const [xa; xb] = true
+  /\ length (exports_of (state_after d_lib)) = 3
+  /\ no_interference FUEL [(lbl, d_lib)] xa xb = true
+  /\ frozen_stateb [(lbl, d_nested)] [] [] (state_after d_nested) = false
+  /\ frozen_stateb [(lbl, d_mk)] [] [] (state_after d_mk) = false
+  /\ frozen_stateb [(lbl, d_dflt)] [] [] (state_after d_dflt) = false.
+Proof. exact frozen_examples. Qed.
